@@ -4,11 +4,13 @@ import (
 	_ "google.golang.org/protobuf/verifmc/checks/c01"
 	_ "google.golang.org/protobuf/verifmc/checks/c02"
 	_ "google.golang.org/protobuf/verifmc/checks/c03"
+	_ "google.golang.org/protobuf/verifmc/checks/c05"
 	_ "google.golang.org/protobuf/verifmc/checks/c06"
 	_ "google.golang.org/protobuf/verifmc/checks/c07"
 	_ "google.golang.org/protobuf/verifmc/checks/c08"
 	_ "google.golang.org/protobuf/verifmc/checks/c09"
 	_ "google.golang.org/protobuf/verifmc/checks/c10"
+	_ "google.golang.org/protobuf/verifmc/checks/c13"
 	_ "google.golang.org/protobuf/verifmc/checks/c14"
 	_ "google.golang.org/protobuf/verifmc/checks/c16"
 	_ "google.golang.org/protobuf/verifmc/checks/c17"
